@@ -87,6 +87,10 @@ let ple_auto_k (x : mat) =
   let k = int_of_float (Float.log2 (float (const "L2" / 8) /. float (max 1 (width_of x)) /. 7.0)) in
   let klog = int_of_float (Float.round (0.75 *. float (log2_floor (min (nri x) (nci x))))) in
   clamp 2 8 (if klog < k then klog else k)
+(* triangular_russian.c:387-391 (k == 0 of mzd_trtri_upper_russian) *)
+let trtri_auto_k (x : mat) =
+  let k = min 7 (opt_k (nri x) (nci x)) in
+  max 1 (if 0.75 *. float (1 lsl k) *. float (nci x) > float (const "L3") /. 2.0 then k - 1 else k)
 (* triangular_russian.c:55-66 / 209-219 *)
 let trsm_auto_k (b : mat) =
   let k = int_of_float (Float.log2 (float (const "L2" / 8) /. float (max 1 (width_of b)) /. 8.0)) in
@@ -317,8 +321,15 @@ let dispatch_ext (op : string) (a : string array) : unit =
     let f = if op = "tb_trsm_lower_right" || op = "tb__trsm_lower_right" then x_tb_trsm_lower_right else x_tb_trsm_upper_right in
     k.set_mat a.(2) (f (tri_cfg ()) (ni (max 0 (i 3))) t b)
   | "tb_trtri_upper" ->
+    (* mzd_trtri_upper over the library's own base routine mzd_trtri_upper_russian(A, 0) (faithful model, table
+       parameter as triangular_russian.c:387-391 computes it; by C05_trtri_russian it does not influence the result) *)
     let x = m 1 in
-    k.set_mat a.(1) (tb_opt (x_tb_trtri (tri_cfg ()) (ni (trsm_auto_k x)) x))
+    k.set_mat a.(1) (tb_opt (x_tb_trtri_fr (tri_cfg ()) (ni (trtri_auto_k x)) (ni (trsm_auto_k x)) x))
+  | "tb_trtri_upper_russian" ->
+    (* trtri_upper_russian A k *)
+    let x = m 1 in
+    let kt = if i 2 = 0 then trtri_auto_k x else i 2 in
+    k.set_mat a.(1) (x_tb_trtri_russian (ni kt) x)
   | "tb_inv_m4ri" ->
     (* inv_m4ri RET DST A k : the work matrix is n x 2*64*width, echelonised with the automatic k *)
     let x = m 3 in
